@@ -1,7 +1,11 @@
 from .model import SCHEMA, Spec
-from . import c_dimension, c_prefix
+from . import c_dimension, c_prefix, c_unit
 
 CONTRACTS = {}
-for _m in (c_dimension, c_prefix):
+for _m in (c_dimension, c_prefix, c_unit):
     CONTRACTS.update(_m.CONTRACTS)
 SPEC = Spec()
+
+SPEC.loops = {}
+for _m in (c_unit,):
+    SPEC.loops.update(getattr(_m, "LOOPS", {}))
